@@ -148,7 +148,8 @@ mod n {
             let got: Vec<u32> = y.values.iter().map(|v| v.1).collect();
             c.check("C17.convert.year.periods", got == want, || format!("period lengths {:?} want {:?}", got, want));
             c.check("C17.convert.year.partition", got.iter().sum::<u32>() == 365, || format!("period lengths add up to {}", got.iter().sum::<u32>()));
-            let wids: Vec<Uuid> = weeks.iter().map(|w| maps.schedule_week_id(&w.name).unwrap()).collect();
+            // (ids read from the converted weekly schedules by name: the accessors of IdMaps are not part of the contract)
+            let wids: Vec<Uuid> = weeks.iter().map(|w| db.week.iter().find(|x| x.name == w.name).map(|x| x.id).unwrap_or_default()).collect();
             c.check("C17.convert.year.weeks", y.values.iter().map(|v| v.0).collect::<Vec<_>>() == wids, || "weekly schedule ids out of order".to_string());
             // and the converted database expands to exactly 365 days
             c.check("C17.convert.year.expands", db.get_year_as_day_sch(y.id).len() == 365, || format!("expands to {} days", db.get_year_as_day_sch(y.id).len()));
@@ -194,8 +195,8 @@ mod n {
             if form != 2 {
                 let w = &db.week[0];
                 let expanded = w.to_day_sch();
-                let ida = maps.schedule_day_id("A").unwrap();
-                let idb = maps.schedule_day_id("B").unwrap();
+                let ida = db.day.iter().find(|d| d.name == "A").map(|d| d.id).unwrap_or_default();
+                let idb = db.day.iter().find(|d| d.name == "B").map(|d| d.id).unwrap_or_default();
                 let want: Vec<Uuid> = if form == 0 { days_list.iter().map(|n| if n == "A" { ida } else { idb }).collect() } else { vec![if days_list[0] == "A" { ida } else { idb }; 7] };
                 c.check("C17.convert.week.covers_7", expanded.len() == 7 && w.values.iter().map(|v| v.1).sum::<u32>() == 7, || format!("runs {:?}", w.values.iter().map(|v| v.1).collect::<Vec<_>>()));
                 c.check("C17.convert.week.days", expanded == want, || "expanded weekly schedule differs from the 7-day list".to_string());
